@@ -26,9 +26,11 @@
    point), remembering with which arguments each helper was entered.
 
 3. `sequence_of` — how a list value is built from another list: an order-keeping iterator pipeline with exactly one `map`,
-   or a fresh Vec that receives exactly one `push` per element of a `for` loop which only stops early by returning an error
-   (also when that loop lives in a helper that `Normal` inlined).  `chain_of` — the consecutive passes (each a
-   `sequence_of`) that lead from a source list to a result list, whether written in one function or several.
+   or a fresh Vec that receives exactly one `push` on every way round a `for` loop (one or several push sites) which only
+   stops early by returning an error (also when that loop lives in a helper that `Normal` inlined).  `chain_of` — the
+   consecutive passes (each a `sequence_of`) that lead from a source list to a result list, whether written in one function
+   or several.  `inplace_calls` / `inplace_sequence` — passes that rewrite the returned value's list in place through `&mut`.
+   `elem_cases` — the guarded case analysis of the mapping such a pass applies to one element, for all of these forms.
 """
 import re
 
@@ -228,7 +230,9 @@ class Cases:
                 extra = []
                 decided = {c.sw_bb for c in conds}
                 for j, (bj, vj, cj) in enumerate(rs):
-                    diff = [c for c in cj if (c.sw_bb, c.target) not in mine]
+                    # (only the decisions that can lie on a way to this row: what a sibling decides afterwards, e.g. the
+                    #  outcome of the `?` inside its arm, says nothing about the rows it shares a `_ =>` arm with)
+                    diff = [c for c in cj if (c.sw_bb, c.target) not in mine and (c.sw_bb == bi or bi in fn.reachable(c.sw_bb))]
                     # (a row that already took another edge at one of those switches carries the direct negation)
                     if i == j or not diff or any(c.sw_bb in decided or c.kind not in ('variant', 'bool') for c in diff):
                         continue
@@ -622,18 +626,26 @@ def sequence_of(prog, sl, f, v, N=None):
                 else:
                     s.why = 'the list is modified by something else than push'
                     return s
-        if len(pushes) != 1:
-            s.why = '%d push sites' % len(pushes)
+        if not pushes:
+            s.why = '0 push sites'
+            return s
+        # every push site lies in one and the same loop (and in no loop nested in it) ...
+        all_loops = find_loops(g, sl)
+        L = None
+        for p in pushes:
+            loops = [X for X in all_loops if p.bb in X.body]
+            if len(loops) != 1 or not g.in_loop(p.bb) or (L is not None and loops[0].header != L.header):
+                s.why = 'push is not inside exactly one loop' if len(pushes) == 1 else '%d push sites, not in one loop' % len(pushes)
+                return s
+            L = loops[0]
+        # ... and every iteration that goes on to the next element has pushed exactly once: on every way from the loop head
+        # to a back edge the number of push sites passed is 1 (`if c { v.push(a); continue; } v.push(b)` and
+        # `v.push(if c { a } else { b })` alike; an iteration that pushes nothing or twice is not one-to-one)
+        lo, hi = push_counts(g, L, {p.bb for p in pushes})
+        if any(lo.get(l) != 1 or hi.get(l) != 1 for l in L.latches):
+            s.why = 'an iteration can continue without pushing' if any(lo.get(l, 0) < 1 for l in L.latches) else 'an iteration can push more than once'
             return s
         p = pushes[0]
-        loops = [L for L in find_loops(g, sl) if p.bb in L.body]
-        if len(loops) != 1 or not g.in_loop(p.bb):
-            s.why = 'push is not inside exactly one loop'
-            return s
-        L = loops[0]
-        if not all(g.dominates(p.bb, l) or p.bb == l for l in L.latches):
-            s.why = 'an iteration can continue without pushing'
-            return s
         # the list is complete only when the iterator is exhausted: the exhaustion edge is the only way from the loop to
         # every success result (a `break` / early `return Ok(..)` would not pass it)
         for site in success_sites(g):
@@ -650,9 +662,261 @@ def sequence_of(prog, sl, f, v, N=None):
         s.names, s.coll = cnames, (N.nf(tr(csrc)) if ctx is not None else csrc)
         s.elem = tr(iters.elem_of(al[0][1]))
         s.mapped = tr(sl.operand(g, p.args[1]))
+        if len(pushes) > 1:
+            s.mapped = ('phi', tuple(tr(sl.operand(g, q.args[1])) for q in pushes))
+        # the element mapping as guarded alternatives (elem_cases): each push site with the decisions of this iteration that
+        # lead to it, and the results with which the function leaves the loop other than through exhaustion
+        s.loop_fn, s.loop, s.ctx = g, L, ctx
+        s.pushed = [(q.bb, sl.operand(g, q.args[1]), q.args[1]) for q in pushes]
         s.one_to_one = canon(unwrapped(al[0][1])) == canon(unwrapped(csrc))
         return s
     return Seq(None, names, src, None, None, why='adapters %s' % [n.split('::')[-1] for n in names])
+
+
+def push_counts(g, L, push_bbs):
+    """(lo, hi): least / greatest number of push sites passed on the ways from the head of loop L to each block of its body
+    (counting the block itself), not going round the loop"""
+    INF = 1 << 20
+    lo, hi = {L.header: 1 if L.header in push_bbs else 0}, {L.header: 1 if L.header in push_bbs else 0}
+    for _ in range(len(L.body) + 2):
+        changed = False
+        for b in L.body:
+            if b not in lo:
+                continue
+            for t in g.succs(b):
+                if t not in L.body or t == L.header:
+                    continue
+                w = 1 if t in push_bbs else 0
+                nl, nh = lo[b] + w, min(hi[b] + w, INF)
+                if t not in lo or nl < lo[t] or nh > hi[t]:
+                    lo[t], hi[t] = min(nl, lo.get(t, nl)), max(nh, hi.get(t, nh))
+                    changed = True
+        if not changed:
+            return lo, hi
+    # (did not settle: a push inside an inner cycle)
+    return lo, {b: INF for b in hi}
+
+
+def _exhaustion_cond(g, L, cd):
+    """cd is a decision on the result of the `next()` call that drives loop L"""
+    x = unwrapped(cd.subject) if cd.subject is not None else ('unknown',)
+    return cd.kind == 'variant' and cd.enum == OPTION and cd.sw_bb in L.body and x[0] == 'call' and len(x) > 3 and x[3] is not None and \
+        tuple(x[3]) == (g.path, L.header)
+
+
+def elem_cases(C, seq):
+    """guarded case analysis (Cases C) of the mapping a pass applies to one element, as the Result of that mapping
+    (Ok(x): the element becomes x; Err(e): the pass fails with e; ('val', r): the opaque Result r, propagated):
+    - the closure handed to `map`;
+    - the body of a push loop: each push site under the decisions of the iteration that lead to it (`v.push(x?)` continues
+      with the success payload of x and returns its error: the cases of x; `v.push(x)` is Ok(x)), plus the results with
+      which the loop is left early (`return Err(..)`, a `?` outside the pushed expression);
+    - the body of a loop that rewrites the list in place: each assignment `*slot = x` likewise, the iterations that assign
+      nothing as Ok(<the element>), and the early exits.
+    Decisions on the result of a private helper (`if let Some(r) = helper(x)? { .. }`) are replaced by the helper's own cases."""
+    from .lib.paths import strip
+    if seq.closure is not None:
+        return C.call_cases(seq.closure, [seq.elem])
+    if seq.mapped is None:
+        return []
+    pushed = getattr(seq, 'pushed', None)
+    if not pushed:
+        return C.value_cases(strip(seq.mapped), {})
+    g, L, m = seq.loop_fn, seq.loop, (seq.ctx or {})
+    inplace = getattr(seq, 'inplace', False)
+    if inplace:
+        # (the element local stands for the element as it was when the iteration began: inplace_sequence)
+        C = Cases(C.prog, C.sl, C.entry, C.stop)
+        for e in seq.elem_locals:
+            C.sym._cache[(g.path, e)] = seq.elem_g
+    tr = (lambda x: subst(x, m, C.sl)) if m else (lambda x: x)
+    elem_c = canon(seq.elem)
+    out = []
+
+    def in_loop(*bbs):
+        out, have = [], set()
+        for bb in bbs:
+            for cd in conditions(g, bb, C.sym):
+                if cd.sw_bb in L.body and not _exhaustion_cond(g, L, cd) and (cd.sw_bb, cd.target) not in have:
+                    have.add((cd.sw_bb, cd.target))
+                    out.append(cd)
+        return out
+
+    def guards(*bbs):
+        return [a for cd in in_loop(*bbs) for a in C.cond_atoms(cd, m)]
+    # the values pushed / assigned, one per branch when the operand is the result of a `match` / `if` (`push(if c { a } else { b })`)
+    sites = []
+    for bb, v, op in pushed:
+        l = phi_local_of(g, op) if op is not None else None
+        rows = C._def_rows(g, l) if l is not None else []
+        if rows and all(bi in L.body for bi, rv, cds in rows):
+            sites.extend(((bb, bi), rv) for bi, rv, cds in rows)
+        else:
+            sites.append(((bb,), v))
+    propagated = set()
+    for bbs, v in sites:
+        atoms = guards(*bbs)
+        # v = unwrap^n(X): the payload (`?`, unwrap, `if let Some(p) = ..`) of the payload of .. X
+        x, n = peel(tr(v)), 0
+        while x[0] == 'unwrap' and canon(x) != elem_c and not (peel(x[1])[0] == 'call' and peel(x[1])[1] == IT + 'next'):
+            x, n = peel(x[1]), n + 1
+        if n == 0:
+            out.append((C._uniq(atoms), ('Ok', ('val', tr(v)))))
+            continue
+        xc = canon(core(x))
+        tested = [cd for cd in in_loop(*bbs) if cd.kind == 'variant' and cd.enum != 'std::ops::ControlFlow' and
+                  ('is', xc, POS) in C.cond_atoms(cd, m)]
+        if n == 1 and not tested:
+            # `push(x?)` / `*slot = x?`: the result of x is the result of the mapping (its error leaves through the `?`)
+            propagated.add(_tried(('unwrap', x)))
+            for gs, sh in C.value_cases(x, {}):
+                out.append((C._uniq(tuple(a for a in atoms if a != ('is', xc, POS)) + tuple(gs)), sh))
+            continue
+        # the cases of X in which every one of the n levels is Some / Ok, with the payload found there
+        for gs, sh in C.value_cases(x, {}):
+            cur, left = sh, n
+            while left and cur is not None:
+                while cur[0] == 'from':
+                    cur = cur[1]
+                if cur[0] in ('Ok', 'Some'):
+                    cur, left = cur[1], left - 1
+                elif cur[0] == 'val':
+                    leaf = cur[1]
+                    for _ in range(left):
+                        leaf = ('unwrap', leaf)
+                    cur, left = ('val', leaf), 0
+                else:
+                    cur = None
+            if cur is not None:
+                out.append((C._uniq(tuple(atoms) + tuple(gs)), ('Ok', cur)))
+    if inplace:
+        store_bbs = {x[0] for x in pushed}
+
+        def round_without_store(t, cut=()):
+            seen, work = set(), [t]
+            while work:
+                b = work.pop()
+                if b in seen or b not in L.body or b in store_bbs or b == L.header:
+                    continue
+                seen.add(b)
+                if b in L.latches:
+                    return True
+                work.extend(x for x in g.succs(b) if (b, x) not in cut)
+            return False
+        cands = {}
+        for bbs, _ in sites:
+            for cd in in_loop(*bbs):
+                for t in g.succs(cd.sw_bb):
+                    if t != cd.target and (cd.sw_bb, t) not in cands and round_without_store(t):
+                        cands[(cd.sw_bb, t)] = cd
+        for (sb, t), cd in sorted(cands.items()):
+            tc = in_loop(t)
+            if any(c.sw_bb == sb for c in tc):
+                atoms = [a for c in tc for a in C.cond_atoms(c, m)]
+            else:
+                atoms = guards(sb) + [('nall', frozenset(C.cond_atoms(cd, m)))]
+            out.append((C._uniq(atoms), ('Ok', ('val', seq.elem))))
+        first = [x for x in g.succs(L.header)]
+        if any(round_without_store(x, cut=set(cands)) for x in first):
+            # (a way round the loop that assigns nothing and is not described by the decisions above)
+            out.append(((('?',),), ('Ok', ('val', seq.elem))))
+    # early exits of the loop: rows of the return place decided inside the loop body, not passing the exhaustion edge
+    for bi, v, conds, extra in C.rows(g):
+        inside = [cd for cd in conds if cd.sw_bb in L.body]
+        if not inside or any(_exhaustion_cond(g, L, cd) and cd.outcome == frozenset({'None'}) for cd in inside):
+            continue
+        atoms = [a for cd in inside if not _exhaustion_cond(g, L, cd) for a in C.cond_atoms(cd, m)]
+        for gs, sh in C.value_cases(tr(v), m, (g.path,)):
+            # (the error of a propagated `x?` is already a case of x)
+            if sh[0] == 'Err' and _tried(tr(v)) is not None and _tried(tr(v)) in propagated:
+                continue
+            out.append((C._uniq(tuple(atoms) + tuple(gs)), sh))
+    return [(atoms, sh) for atoms, sh in expand_atoms(C, out) if feasible(atoms)]
+
+
+def feasible(atoms):
+    """no value is required to be both Some/Ok and None/Err"""
+    pol = {}
+    for a in atoms:
+        if a[0] == 'is' and a[2] in (POS, NEG):
+            if pol.setdefault(a[1], a[2]) != a[2]:
+                return False
+        if a[0] == 'false':
+            return False
+    return True
+
+
+def expand_atoms(C, cases, depth=0):
+    """case split on the result of private helpers: atoms `helper(..) is Ok`, `unwrap(helper(..)) is None` .. are replaced by
+    the guards of those cases of the helper that agree with them"""
+    out = []
+    for atoms, sh in cases:
+        target = None
+        for a in atoms:
+            if a[0] == 'is' and a[2] in (POS, NEG):
+                x = a[1]
+                while x[0] == 'unwrap':
+                    x = x[1]
+                if x[0] == 'call' and C.descend(C.prog.fns.get(x[1])):
+                    target = x
+                    break
+        if target is None or depth > 3:
+            out.append((atoms, sh))
+            continue
+        cons, rest, clash = {}, [], False
+        for a in atoms:
+            if a[0] == 'is' and a[2] in (POS, NEG):
+                x, n = a[1], 0
+                while x[0] == 'unwrap':
+                    x, n = x[1], n + 1
+                if x == target:
+                    clash = clash or cons.get(n, a[2]) != a[2]
+                    cons[n] = a[2]
+                    continue
+            rest.append(a)
+        if clash:
+            continue
+        sub = []
+        for gs, xsh in C.value_cases(target, {}):
+            cur, ok, open_ = xsh, True, []
+            for lvl in range(max(cons) + 1):
+                while cur[0] == 'from':
+                    cur = cur[1]
+                if cur[0] == 'val':
+                    leaf = canon(core(cur[1]))
+                    for l in sorted(cons):
+                        if l >= lvl:
+                            y = leaf
+                            for _ in range(l - lvl):
+                                y = ('unwrap', y)
+                            open_.append(('is', y, cons[l]))
+                    break
+                pos = cur[0] in ('Ok', 'Some')
+                if lvl in cons and (cons[lvl] == POS) != pos:
+                    ok = False
+                    break
+                if not pos:
+                    ok = not any(l > lvl for l in cons)
+                    break
+                cur = cur[1]
+            if ok and feasible(tuple(rest) + tuple(gs) + tuple(open_)):
+                sub.append((C._uniq(tuple(rest) + tuple(gs) + tuple(open_)), sh))
+        out.extend(expand_atoms(C, sub, depth + 1))
+    return out
+
+
+def _tried(v):
+    """the value a `?` was applied to: x of unwrap(x) / from_residual(residual(x)), without the Try::branch wrapper"""
+    v = peel(v)
+    if v[0] == 'call' and v[1].endswith('FromResidual::from_residual') and v[2] and peel(v[2][0])[0] == 'residual':
+        v = peel(peel(v[2][0])[1])
+    elif v[0] == 'unwrap':
+        v = peel(v[1])
+    else:
+        return None
+    while v[0] == 'call' and v[1] == 'std::ops::Try::branch' and v[2]:
+        v = peel(v[2][0])
+    return canon(v)
 
 
 def chain_of(prog, sl, N, f, v):
@@ -667,6 +931,264 @@ def chain_of(prog, sl, N, f, v):
             break
         v = s.coll
     return out, v
+
+
+# ------------------------------------------------------------------------------------------------------------------
+# lists rewritten in place
+# ------------------------------------------------------------------------------------------------------------------
+# `let mut d = input.clone(); pass1(&mut d)?; pass2(&mut d)?; Ok(d)` with
+# `fn pass(d: &mut T) { for x in &mut d.dependencies { if c(x) { *x = f(x)?; } } }` builds the same list as
+# `input.dependencies.iter().map(|x| if c(x) { f(x) } else { Ok(x.clone()) }).collect()`: a slot is never added, removed or
+# moved, each one is either assigned as a whole (at most once per iteration, from values read before the assignment) or keeps
+# its element.  The value algebra follows assignments to locals only, so these passes are read from the MIR directly.
+def _op_place(o):
+    if isinstance(o, dict):
+        for k in ('m', 'c'):
+            if k in o and isinstance(o[k], list):
+                return o[k]
+    return None
+
+
+def _move_closure(g, roots):
+    """locals that receive the value of one of `roots` by plain moves / copies"""
+    out = set(roots)
+    changed = True
+    while changed:
+        changed = False
+        for l in range(len(g.locals)):
+            if l in out:
+                continue
+            ds = g.whole_defs(l)
+            if ds and all(d[0] == 'stmt' and d[3].get('r') == 'use' and (_op_place(d[3]['o']) or [None]) in [[r] for r in out] for d in ds):
+                out.add(l)
+                changed = True
+    return out
+
+
+def returned_local(f):
+    """the locals through which the value every success result of f carries (`Ok(d)` / `d`) is moved, back to the one it was
+    first stored in; None when the success results are not all one such value"""
+    chains = []
+    for site in success_sites(f):
+        if site.kind != 'ok' or site.stmt is None:
+            return None
+        rv = site.stmt
+        if rv.get('r') == 'agg' and rv.get('adt') in (RESULT, OPTION) and rv.get('variant') in ('Ok', 'Some') and len(rv.get('ops', [])) == 1:
+            pl = _op_place(rv['ops'][0])
+        elif rv.get('r') == 'use':
+            pl = _op_place(rv['o'])
+        else:
+            return None
+        if not pl or len(pl) != 1:
+            return None
+        x, chain = pl[0], [pl[0]]
+        for _ in range(12):
+            ds = f.whole_defs(x)
+            if len(ds) == 1 and ds[0][0] == 'stmt' and ds[0][3].get('r') == 'use':
+                q = _op_place(ds[0][3]['o'])
+                if q and len(q) == 1 and q[0] != 0 and not (1 <= q[0] <= f.argc):
+                    x = q[0]
+                    chain.append(x)
+                    continue
+            break
+        chains.append(chain)
+    if not chains or len({c[-1] for c in chains}) != 1:
+        return None
+    return frozenset(x for c in chains for x in c)
+
+
+def inplace_calls(prog, f, root, ty_rx):
+    """([(Call, callee Fn, index of the &mut parameter)] in execution order, problem | None): the workspace functions that
+    the local `root` of f (or its list) is handed to by `&mut` before every success result"""
+    from .lib.discard import result_fates, verdict
+    calls = {}
+    for pl, c in mut_borrows(f):
+        if pl[0] not in root:
+            continue
+        if c is None:
+            return [], 'a mutable borrow of the result is stored'
+        g = prog.fns.get(c.name or '')
+        if g is None or g.kind == 'Closure' or g.crate != f.crate or c.indirect:
+            continue     # (a std method on the list: judged by list-untouched)
+        ks = [i for i, t in enumerate(g.args) if re.match(r"^&(?:'\w+ )?mut ", t or '') and ty_rx.match(t or '')]
+        if len(ks) != 1:
+            return [], '%s takes %d mutable lists / descriptors' % (g.path.rsplit('::', 1)[-1], len(ks))
+        calls[c.bb] = (c, g, ks[0])
+    out = sorted(calls.values(), key=lambda x: sum(1 for y in calls.values() if f.dominates(y[0].bb, x[0].bb)))
+    sites = [s.bb for s in success_sites(f)]
+    for i, (c, g, k) in enumerate(out):
+        name = g.path.rsplit('::', 1)[-1]
+        if f.in_loop(c.bb):
+            return [], '%s is called in a loop' % name
+        if not all(f.dominates(c.bb, b) for b in sites) or any(not f.dominates(c.bb, d[0].bb) for d in out[i + 1:]):
+            return [], '%s does not run before every success result' % name
+        if (g.ret or '').startswith(('std::result::Result<', 'std::option::Option<')) and verdict(result_fates(prog, f, c)) != 'ok':
+            return [], 'the result of %s is not checked' % name
+    return out, None
+
+
+def inplace_sequence(prog, sl, g, k, ctx, N=None):
+    """how function g rewrites the list behind its `&mut` parameter k (a descriptor or the bare list): a Seq of kind
+    'in-place' (one_to_one when every obligation of the comment above is met).  ctx: the caller's argument values"""
+    s = Seq('in-place', [], ('unknown', 'collection'), None, None)
+    s.accounted = set()
+    tr = (lambda x: subst(x, ctx, sl)) if ctx else (lambda x: x)
+    p = k + 1
+    normal = g.reachable(0)
+    # -- the parameter is only used to iterate mutably over the list (other fields may be read) ------------------------------
+    if g.whole_defs(p) or g.partial_defs(p):
+        s.why = 'the mutable parameter is assigned through (other than element by element)'
+        return s
+    borrows = 0
+    for bi, kind, idx, how, pl in g.uses_of(p):
+        through_list = any(str(x).lstrip('.') == 'dependencies' for x in pl[1:]) or len([x for x in pl[1:] if x != '*']) == 0
+        if kind == 'stmt' and how == 'refmut' and through_list:
+            borrows += 1
+        elif kind == 'stmt' and how in ('ref', 'c') and not through_list:
+            continue
+        elif kind == 'arg' and how == 'm' and len(pl) == 1:
+            borrows += 1
+        else:
+            s.why = 'the mutable parameter is also used otherwise (%s %s)' % (kind, how)
+            return s
+    if borrows != 1:
+        s.why = 'the list is borrowed mutably %d times' % borrows
+        return s
+    # -- one loop over exactly the elements of that list, in order -------------------------------------------------------------
+    loops = []
+    for L in find_loops(g, sl):
+        c0 = unwrapped(adapters(L.collection)[1]) if L.collection is not None else ('unknown',)
+        base = c0[1] if c0[0] == 'field' and c0[2] == 'dependencies' else c0
+        base = unwrapped(base)
+        if base[0] == 'param' and base[1] == g.path and base[2] == k:
+            loops.append(L)
+    if len(loops) != 1:
+        s.why = '%d loops over the list' % len(loops)
+        return s
+    L = loops[0]
+    if any(L.header in X.body and X.header != L.header for X in find_loops(g, sl)):
+        s.why = 'the loop over the list is nested in another loop'
+        return s
+    cnames, csrc = adapters(L.collection)
+    al = iters.alts(sl, L.collection)
+    keeps = ORDER_KEEPING | {'core::slice::<impl [T]>::iter_mut', 'std::ops::DerefMut::deref_mut', 'std::vec::Vec::<T, A>::as_mut_slice'}
+    if not (set(cnames) <= keeps and IT + 'map' not in cnames and len(al) == 1 and not al[0][2] and al[0][1] is not None and
+            canon(unwrapped(al[0][1])) == canon(unwrapped(csrc))):
+        s.why = 'the loop does not visit each element of the list once, in order'
+        return s
+    # -- the mutable borrow of the list ends in that loop's iterator and nowhere else ------------------------------------------
+    nxt = L.next_call
+    iter_locals = set()
+    for pl, c in mut_borrows(g):
+        if pl[0] != p:
+            continue
+        if c is None:
+            s.why = 'a mutable borrow of the list is stored'
+            return s
+        if c.bb == nxt.bb:
+            continue
+        if (c.decl or '') == 'std::iter::IntoIterator::into_iter' and c.dest and len(c.dest) == 1:
+            iter_locals |= _move_closure(g, {c.dest[0]})
+            s.accounted.add((g.path, c.bb))
+            continue
+        s.why = 'the list is handed out mutably to %s' % (c.name or c.decl or '?').rsplit('::', 1)[-1]
+        return s
+    for pl, c in mut_borrows(g):
+        if pl[0] in iter_locals and (c is None or c.bb != nxt.bb):
+            s.why = 'the iterator over the list is also advanced elsewhere'
+            return s
+    for il in iter_locals:
+        for bi, kind, idx, how, pl in g.uses_of(il):
+            if bi in normal and not (kind == 'drop' or (kind == 'stmt' and how in ('m', 'c', 'refmut') and len(pl) == 1)):
+                s.why = 'the iterator over the list is also used elsewhere'
+                return s
+    # -- the element of an iteration: only read, or assigned as a whole ---------------------------------------------------------
+    if not nxt.dest or len(nxt.dest) != 1:
+        s.why = 'cannot locate the element'
+        return s
+    nd = nxt.dest[0]
+    first = set()
+    for l in range(len(g.locals)):
+        for d in g.whole_defs(l):
+            if d[0] == 'stmt' and d[3].get('r') == 'use':
+                q = _op_place(d[3]['o'])
+                if q and q[0] == nd and len(q) == 3 and str(q[1]).endswith('Some'):
+                    first.add(l)
+    elems = _move_closure(g, first)
+    for bi, kind, idx, how, pl in g.uses_of(nd):
+        if bi in normal and not (kind in ('drop', 'switch') or (kind == 'stmt' and how in ('discr', 'm', 'c'))):
+            s.why = 'the iterator result is used otherwise'
+            return s
+    if not elems or not all(re.match(r"^&(?:'\w+ )?mut ", g.local_ty(e) or '') for e in elems):
+        s.why = 'the loop does not iterate mutably'
+        return s
+    stores, reads = [], []
+    for e in elems:
+        for d in g.partial_defs(e):
+            if d[1] not in normal:
+                continue
+            if d[0] in ('stmt', 'call') and list(d[4][1:]) == ['*']:
+                stores.append(d)
+            else:
+                s.why = 'a part of an element is assigned in place'
+                return s
+        for bi, kind, idx, how, pl in g.uses_of(e):
+            if bi not in normal or kind == 'drop':
+                continue
+            if kind == 'stmt' and how in ('m', 'c') and len(pl) == 1:
+                continue        # (moved to another local of `elems`)
+            if kind == 'stmt' and how in ('ref', 'c', 'discr') and len(pl) > 1:
+                reads.append((bi, idx))
+                continue
+            s.why = 'an element is handed out mutably / modified in place'
+            return s
+    if not stores:
+        s.why = 'no element is assigned'
+        return s
+    store_bbs = {}
+    for d in stores:
+        if d[1] in store_bbs or d[1] not in L.body or any(d[1] in X.body for X in find_loops(g, sl) if X.header != L.header):
+            s.why = 'an element is assigned more than once / outside the loop over the list'
+            return s
+        store_bbs[d[1]] = d
+    lo, hi = push_counts(g, L, set(store_bbs))
+    if any(hi.get(l, 0) > 1 for l in L.latches):
+        s.why = 'an element can be assigned twice in one iteration'
+        return s
+    # (what an iteration reads of its element, it reads before it assigns it: the values below are those of the old element)
+    for bi, d in store_bbs.items():
+        after = set()
+        for t in g.succs(bi):
+            after |= {b for b in g.reachable(t, stop=(L.header,)) if b in L.body and b != L.header}
+        si = d[2] if d[0] == 'stmt' else 1 << 30     # (a call that writes its result into the slot ends the block)
+        for rb, ri in reads:
+            later_here = rb == bi and (ri is None or ri > si)
+            if later_here or (rb in after and not (rb == bi and ri is not None and ri < si and bi not in after)):
+                s.why = 'an element is read after it was assigned'
+                return s
+    # -- the list is complete only when the iterator is exhausted ----------------------------------------------------------------
+    for site in success_sites(g):
+        done = [cd for cd in conditions(g, site.bb, sl) if _exhaustion_cond(g, L, cd) and cd.outcome == frozenset({'None'})]
+        if not done:
+            s.why = 'a success result is reachable without exhausting the iterator'
+            return s
+    s.accounted.add((g.path, nxt.bb))
+    # -- values: the element stands for its value before the assignment -----------------------------------------------------------
+    elem_g = iters.elem_of(al[0][1])
+    slx = Slicer(prog)
+    for e in elems:
+        slx._cache[(g.path, e)] = elem_g
+    vals = []
+    for bi, d in sorted(store_bbs.items()):
+        v = slx._rvalue(g, d[3], set(), 0, (d[1], d[2])) if d[0] == 'stmt' else slx._call_value(g, d[3], set(), 0)
+        vals.append((bi, v, d[3]['o'] if d[0] == 'stmt' and d[3].get('r') == 'use' else None))
+    s.names, s.coll = cnames, (N.nf(tr(csrc)) if (ctx and N is not None) else tr(csrc))
+    s.elem = tr(elem_g)
+    s.mapped = tr(vals[0][1]) if len(vals) == 1 else ('phi', tuple(tr(x[1]) for x in vals))
+    s.loop_fn, s.loop, s.ctx, s.pushed = g, L, ctx, vals
+    s.inplace, s.elem_locals, s.elem_g = True, elems, elem_g
+    s.one_to_one = True
+    return s
 
 
 # ------------------------------------------------------------------------------------------------------------------
